@@ -13,12 +13,12 @@ def bSq : ℚ := (4045 / 100000 + ratOf ASRGB - 1) / ratOf ASRGB
 
 theorem cert_srgb_l :
     finiteB C.srgb_eotf_f0 = true ∧ ratOf C.srgb_eotf_f0 = 0 ∧ C.srgb_eotf_f0 < 4294967296 ∧
-    finiteB (mul C.srgb_eotf_f1 BSRGB) = true ∧ 3929337 / 10 ^ 8 ≤ ratOf (mul C.srgb_eotf_f1 BSRGB) ∧ ratOf (mul C.srgb_eotf_f1 BSRGB) ≤ 3929338 / 10 ^ 8 ∧
+    finiteB (mul C.srgb_eotf_f1 BSRGB) = true ∧ 3929330 / 10 ^ 8 ≤ ratOf (mul C.srgb_eotf_f1 BSRGB) ∧ ratOf (mul C.srgb_eotf_f1 BSRGB) ≤ 3929345 / 10 ^ 8 ∧
     finiteB ASRGB = true ∧ 10550106 / 10 ^ 7 ≤ ratOf ASRGB ∧ ratOf ASRGB ≤ 10550108 / 10 ^ 7 ∧
     finiteB (sub ASRGB C.srgb_eotf_f3) = true ∧ ratOf (sub ASRGB C.srgb_eotf_f3) = ratOf ASRGB - 1 ∧
     finiteB C.srgb_eotf_f2 = true ∧ |ratOf C.srgb_eotf_f2 - 1292 / 100| ≤ 1 / 10 ^ 6 ∧
     finiteB C.srgb_eotf_f4 = true ∧ |ratOf C.srgb_eotf_f4 - 12 / 5| ≤ 1 / 10 ^ 6 ∧
-    (30412795 / 10 ^ 10 : ℚ) ^ 5 ≤ bTq ^ 12 ∧ bTq ^ 12 ≤ (30412797 / 10 ^ 10 : ℚ) ^ 5 ∧ bSq ^ 12 ≤ (31315718 / 10 ^ 10 : ℚ) ^ 5 ∧ 0 ≤ bTq ∧ 0 ≤ bSq := by
+    (30412780 / 10 ^ 10 : ℚ) ^ 5 ≤ bTq ^ 12 ∧ bTq ^ 12 ≤ (30412812 / 10 ^ 10 : ℚ) ^ 5 ∧ bSq ^ 12 ≤ (31315718 / 10 ^ 10 : ℚ) ^ 5 ∧ 0 ≤ bTq ∧ 0 ≤ bSq := by
   decide +kernel
 
 /-- powers of nearby bases in `(0, 1.001]`, exponent 2.4 -/
@@ -124,8 +124,8 @@ theorem srgb_to_linear_o : CurveWithinB (srgb_eotf B) specLinear (c0 + c1 * (12 
   obtain ⟨ft, vt⟩ := Exp2.rat_val _ t1
   obtain ⟨fa, va⟩ := Exp2.rat_val _ a1
   obtain ⟨fs, vs⟩ := Exp2.rat_val _ s1
-  have hT1 : (3929337:ℝ) / 10 ^ 8 ≤ toReal (mul C.srgb_eotf_f1 BSRGB) := by rw [vt]; have := (Rat.cast_le (K := ℝ)).mpr t2; push_cast at this; exact this
-  have hT2 : toReal (mul C.srgb_eotf_f1 BSRGB) ≤ 3929338 / 10 ^ 8 := by rw [vt]; have := (Rat.cast_le (K := ℝ)).mpr t3; push_cast at this; exact this
+  have hT1 : (3929330:ℝ) / 10 ^ 8 ≤ toReal (mul C.srgb_eotf_f1 BSRGB) := by rw [vt]; have := (Rat.cast_le (K := ℝ)).mpr t2; push_cast at this; exact this
+  have hT2 : toReal (mul C.srgb_eotf_f1 BSRGB) ≤ 3929345 / 10 ^ 8 := by rw [vt]; have := (Rat.cast_le (K := ℝ)).mpr t3; push_cast at this; exact this
   have hα1 : (10550106:ℝ) / 10 ^ 7 ≤ toReal ASRGB := by rw [va]; have := (Rat.cast_le (K := ℝ)).mpr a2; push_cast at this; exact this
   have hα2 : toReal ASRGB ≤ 10550108 / 10 ^ 7 := by rw [va]; have := (Rat.cast_le (K := ℝ)).mpr a3; push_cast at this; exact this
   have hav : toReal (sub ASRGB C.srgb_eotf_f3) = toReal ASRGB - 1 := by rw [vs, s2, va]; push_cast; ring
@@ -192,7 +192,7 @@ theorem srgb_to_linear_o : CurveWithinB (srgb_eotf B) specLinear (c0 + c1 * (12 
       have h2' : α = ((ratOf ASRGB : ℚ) : ℝ) := va
       have h3' : (0.04045:ℝ) = 4045 / 100000 := by norm_num
       rw [h2', h3']; unfold bSq; push_cast; ring
-    have hE := rpow_encl ((T + (α - 1)) / α) (30412795 / 10 ^ 10) (30412797 / 10 ^ 10) 12 5 (by norm_num)
+    have hE := rpow_encl ((T + (α - 1)) / α) (30412780 / 10 ^ 10) (30412812 / 10 ^ 10) 12 5 (by norm_num)
       (by rw [← hbTq]; exact_mod_cast e4) (by norm_num) (by norm_num)
       (by rw [← hbTq]; have := (Rat.cast_le (K := ℝ)).mpr e1; push_cast at this; exact this)
       (by rw [← hbTq]; have := (Rat.cast_le (K := ℝ)).mpr e2; push_cast at this; exact this)
